@@ -750,7 +750,8 @@ fn main() {
                             let (Some(backend), Some(fl)) = (base.backend.clone(), base.flavor) else { continue };
                             let all: Vec<String> = CONC_KEYS.iter().map(|s| s.to_string()).collect();
                             let mut v: Vec<SchedRes> = vec![];
-                            let (_, truncated) = conc::explore(&rt, fl, &backend, tasks, &all, bound, cap, |o| {
+                            let cap_here = if thorough && tasks.len() > 2 { cap / 2 } else { cap };
+                            let (_, truncated) = conc::explore(&rt, fl, &backend, tasks, &all, bound, cap_here, |o| {
                                 let mut ops = setup.clone();
                                 ops.push(conc::tasks_line(tasks));
                                 ops.push(format!("schedule {}", o.chosen.iter().map(|c| c.to_string()).collect::<Vec<_>>().join(",")));
